@@ -209,11 +209,11 @@ fn run_filters(
             return;
         }
     };
-    let magic = pcap_in.get_magic_number_raw();
     let pcap_out = if skip_pcap {
         None
     } else {
-        let out = match Pcap::new_with_magic(Rc::new(FileHandle::Stdout), magic) {
+        // the output stream carries the input's global header
+        let out = match Pcap::new_like(Rc::new(FileHandle::Stdout), &pcap_in) {
             Ok(pcap) => pcap,
             Err(err) => {
                 eprintln!("{}", err);
